@@ -41,7 +41,8 @@ def run(pid, tier, tmp, replay):
     if not mc['ok']:
         p = vlib.save_replay(pid, 'model_counterexample.txt', mc['out'].splitlines()[-120:])
         violations.append({'replay': p, 'why': 'stage S: a law of the decision model fails: %s' % mc['violated']})
-    if replay and replay.endswith('.ndjson'):
+    det_replay = bool(replay) and open(replay).readline().startswith('{"e":"SReset"')
+    if replay and replay.endswith('.ndjson') and not det_replay:
         cases = replay
     res_file = os.path.join(tmp, 'res.json')
     rc, errlog = vlib.run_driver('plain', 'config_replay', [cases, res_file], tmp, timeout=900)
@@ -62,6 +63,23 @@ def run(pid, tier, tmp, replay):
         else:
             p = vlib.save_replay(pid, 'lenient_%s.txt' % l['key'].replace(':', '_').replace('=', '_'), [l['example']])
             violations.append({'replay': p, 'why': 'stage B: %d cases accepted although the model rejects them (class %s), e.g. %s' % (l['count'], l['key'], l['example'][:200])})
+    # arguments that interact ("when both threshold and threshold_anon are specified, only threshold_anon is effective";
+    # thresholds spelled as M / K / % / bare megabytes): the detectors configured that way must behave as the
+    # specification of the detectors says for the value the documentation assigns (det_driver + Detectors_Trace)
+    vlib.build('plain', ['det_driver'])
+    dtrace = os.path.join(tmp, 'det.ndjson')
+    dargs = [dtrace, vlib.seed(), 210 if tier == 'quick' else 2100]
+    if det_replay:
+        first = json.loads(open(replay).readline())
+        dargs = [dtrace, first['seed'], 1, first['scn']]
+    drc, derr = vlib.run_driver('plain', 'det_driver', dargs, tmp, timeout=900)
+    if drc != 0:
+        raise vlib.Infra('det_driver exited with %s' % drc)
+    dval = vlib.validate_trace('Detectors_Trace.tla', 'Detectors_Trace.cfg', dtrace, tmp)
+    for i, rej in enumerate(dval['rejections']):
+        seg = rej.pop('segment')
+        p = vlib.save_replay(pid, 'rejected_detector_%d.ndjson' % i, seg)
+        violations.append({'replay': p, 'why': 'stage B (configured detector): event %d of the execution: %s' % (rej['line_in_execution'], rej['first_unmatched'][:300])})
     # the real binary on malformed / invalid documents: exit status must be 0 or 1, never a signal
     exe = os.path.join(vlib.BUILD, 'plain', 'oomd')
     nbin, badbin = 0, []
@@ -80,7 +98,7 @@ def run(pid, tier, tmp, replay):
     cov = {'states': mc['distinct'], 'transitions': mc['states'],
            'traces_validated_against_impl': res['agree'], 'samples': sample,
            'cases': res['cases'], 'cases_in_catalogued_leniency_classes': sum(l['count'] for l in res['lenient']),
-           'binary_documents': nbin, 'mc_configs': ['MC_C12_%s.cfg' % tier], 'exhaustive': True,
+           'binary_documents': nbin, 'configured_detector_executions': dval['executions'], 'mc_configs': ['MC_C12_%s.cfg' % tier], 'exhaustive': True,
            'mc_exhaustive_within_constants': bool(mc.get('completed'))}
     vlib.write_evidence(pid, tier, 'model_checking', cov, time.time() - t0, len(violations), ASSUME)
     vlib.finish(pid, violations, known)
